@@ -423,6 +423,44 @@ class NPShim:
             return x.argsort()
         return real_np.argsort(x, *a, **k)
 
+    def unique(self, x, return_inverse=False, **kw):
+        if kw:
+            raise Unsupported("np.unique options " + ",".join(kw))
+        if isinstance(x, FakeSeries):
+            x = x.arr
+        if not isinstance(x, A):
+            return real_np.unique(x, return_inverse=return_inverse)
+        cells = x.cells
+        if not any(is_sym(c) or isinstance(c, SF) for c in cells):
+            u, inv = real_np.unique(real_np.array(cells), return_inverse=True)
+            ua = A([v.item() for v in u], x.dtype)
+            return (ua, A([int(i) for i in inv], "int64")) if return_inverse else ua
+        if x.dtype.kind == "f":
+            raise Unsupported("np.unique of symbolic floats")
+        # symbolic integers: the order and the equalities are decided by forking (glue under run_paths)
+        uniq = []          # sorted list of representative cells
+        ident = []         # per element: the representative it equals
+        for c in cells:
+            placed = False
+            for k_, u in enumerate(uniq):
+                if bool(c == u):
+                    ident.append(u)
+                    placed = True
+                    break
+                if bool(c < u):
+                    uniq.insert(k_, c)
+                    ident.append(c)
+                    placed = True
+                    break
+            if not placed:
+                uniq.append(c)
+                ident.append(c)
+        ua = A(list(uniq), x.dtype)
+        if not return_inverse:
+            return ua
+        inv = [next(k_ for k_, u in enumerate(uniq) if u is r) for r in ident]
+        return ua, A(inv, "int64")
+
     def issubdtype(self, a, b):
         return real_np.issubdtype(a, b)
 
@@ -886,6 +924,13 @@ class FakeFrame(_S):
 
     def __iter__(self):
         return iter(self.columns)
+
+    def __contains__(self, name):
+        return name in self.data
+
+    @property
+    def shape(self):
+        return (len(self), len(self.columns))
 
     def __len__(self):
         return len(next(iter(self.data.values()))) if self.data else 0
